@@ -6,6 +6,7 @@ import (
 	"fmt"
 	"go/token"
 	"go/types"
+	"sort"
 	"strings"
 
 	"golang.org/x/tools/go/ssa"
@@ -593,4 +594,189 @@ func c15NoLockAcrossSuspension(c *Ctx, r *Result, lfs *LockFlows) {
 		})
 	}
 	r.Extra["calls_under_a_front_end_lock"] = n
+}
+
+// ---- R18g: a line counter is advanced only for a newline ---------------------------------------
+//
+// For every rune-valued SSA value v that the function compares with '\n', a forward dataflow over the
+// function's CFG computes the set of constants v can equal at the advance, refined by the `v == c` /
+// `v != c` branches on the way (domain: ⊤ or a finite set; a loop-carried v is ⊤ at its definition).
+// "{'\n'}" at the advance is the established case. A finite set with another member is a finding: the
+// branches themselves say that the advance is reached for a rune that is not a newline (the exit of
+// `for r != '\n' && r != '\r' && r != EOF` followed by `line++`). ⊤ for every candidate is left to
+// the other rules (the bulk form, a helper predicate): nothing is reported.
+type c18RuneSet struct {
+	bottom, top bool
+	set         map[int64]bool
+}
+
+func (a c18RuneSet) equal(b c18RuneSet) bool {
+	if a.bottom != b.bottom || a.top != b.top || len(a.set) != len(b.set) {
+		return false
+	}
+	for k := range a.set {
+		if !b.set[k] {
+			return false
+		}
+	}
+	return true
+}
+
+func (a c18RuneSet) join(b c18RuneSet) c18RuneSet {
+	if a.bottom {
+		return b
+	}
+	if b.bottom {
+		return a
+	}
+	if a.top || b.top {
+		return c18RuneSet{top: true}
+	}
+	out := c18RuneSet{set: map[int64]bool{}}
+	for k := range a.set {
+		out.set[k] = true
+	}
+	for k := range b.set {
+		out.set[k] = true
+	}
+	return out
+}
+
+// c18RuneCmp: cond is `v == c` / `v != c` (possibly negated); returns c and whether the true edge means equality.
+func c18RuneCmp(cond ssa.Value, v ssa.Value) (int64, bool, bool) {
+	neg := false
+	for {
+		u, ok := cond.(*ssa.UnOp)
+		if !ok || u.Op != token.NOT {
+			break
+		}
+		neg = !neg
+		cond = u.X
+	}
+	bo, ok := cond.(*ssa.BinOp)
+	if !ok || (bo.Op != token.EQL && bo.Op != token.NEQ) {
+		return 0, false, false
+	}
+	var k int64
+	if bo.X == v {
+		if k, ok = constInt(bo.Y); !ok {
+			return 0, false, false
+		}
+	} else if bo.Y == v {
+		if k, ok = constInt(bo.X); !ok {
+			return 0, false, false
+		}
+	} else {
+		return 0, false, false
+	}
+	eq := bo.Op == token.EQL
+	if neg {
+		eq = !eq
+	}
+	return k, eq, true
+}
+
+func c18RuneStates(fn *ssa.Function, v ssa.Value) []c18RuneSet {
+	in := make([]c18RuneSet, len(fn.Blocks))
+	for i := range in {
+		in[i] = c18RuneSet{bottom: true}
+	}
+	in[0] = c18RuneSet{top: true}
+	var defBlock *ssa.BasicBlock
+	if vi, ok := v.(ssa.Instruction); ok {
+		defBlock = vi.Block()
+	}
+	work := []*ssa.BasicBlock{fn.Blocks[0]}
+	for steps := 0; len(work) > 0 && steps < 100000; steps++ {
+		b := work[len(work)-1]
+		work = work[:len(work)-1]
+		st := in[b.Index]
+		if st.bottom {
+			continue
+		}
+		if b == defBlock {
+			st = c18RuneSet{top: true}
+		}
+		for i, s := range b.Succs {
+			out := st
+			if t, ok := b.Instrs[len(b.Instrs)-1].(*ssa.If); ok {
+				if k, eq, ok := c18RuneCmp(t.Cond, v); ok {
+					isEq := eq == (i == 0)
+					switch {
+					case isEq && (st.top || st.set[k]):
+						out = c18RuneSet{set: map[int64]bool{k: true}}
+					case isEq:
+						out = c18RuneSet{bottom: true}
+					case !st.top:
+						out = c18RuneSet{set: map[int64]bool{}}
+						for x := range st.set {
+							if x != k {
+								out.set[x] = true
+							}
+						}
+						if len(out.set) == 0 {
+							out = c18RuneSet{bottom: true}
+						}
+					}
+				}
+			}
+			j := in[s.Index].join(out)
+			if !j.equal(in[s.Index]) {
+				in[s.Index] = j
+				work = append(work, s)
+			}
+		}
+	}
+	return in
+}
+
+// c18NewlineOnly decides R18g for one advance; it returns whether the instance was decided.
+func c18NewlineOnly(c *Ctx, r *Result, fn *ssa.Function, adv *ssa.BinOp, site, pos, key string) bool {
+	var cands []ssa.Value
+	seen := map[ssa.Value]bool{}
+	allInstrs(fn, func(in ssa.Instruction) {
+		bo, ok := in.(*ssa.BinOp)
+		if !ok || (bo.Op != token.EQL && bo.Op != token.NEQ) {
+			return
+		}
+		for _, pair := range [][2]ssa.Value{{bo.X, bo.Y}, {bo.Y, bo.X}} {
+			if k, ok := constInt(pair[1]); ok && k == '\n' && !seen[pair[0]] {
+				if _, isConst := pair[0].(*ssa.Const); !isConst {
+					seen[pair[0]] = true
+					cands = append(cands, pair[0])
+				}
+			}
+		}
+	})
+	bad := ""
+	for _, v := range cands {
+		st := c18RuneStates(fn, v)[adv.Block().Index]
+		if vi, ok := v.(ssa.Instruction); ok && vi.Block() == adv.Block() {
+			continue // defined in the block of the advance: no branch can have tested it
+		}
+		if st.bottom || st.top {
+			continue
+		}
+		if len(st.set) == 1 && st.set['\n'] {
+			r.Instance("R18g", site, pos, "ok", "the branches leading to the advance establish that the scanned rune is a newline", true)
+			return true
+		}
+		var others []string
+		for k := range st.set {
+			if k != '\n' {
+				others = append(others, fmt.Sprintf("%q", rune(k)))
+			}
+		}
+		sort.Strings(others)
+		if len(others) > 0 && bad == "" {
+			bad = strings.Join(others, ", ")
+		}
+	}
+	if bad == "" {
+		return false
+	}
+	r.Instance("R18g", site, pos, "finding", "the advance is reached for a rune that is "+bad, true)
+	r.Report(Finding{Rule: "R18g", Site: site, Pos: pos,
+		Msg: fmt.Sprintf("%s: the line counter is advanced on a path on which the scanned rune is %s, not a newline (the comparisons on the way say so): every later token is reported one line too far down", key, bad)})
+	return true
 }
